@@ -101,7 +101,7 @@ def _run_unit(uname, ucfg, tier, keep=False, overflow_checks=False):
             return res
         out = p.stdout + "\n" + p.stderr
         res.trusted = ["native companion: rustc/cargo release build of the tree under check; reference decoders / models in contracts/native/%s.rs are part of the oracle" % uname]
-        if "error: could not compile" in out or re.search(r"^error(\[E\d+\])?:", out, re.M) and "NATIVE-DONE" not in out:
+        if "error: could not compile" in out:
             m = re.search(r"(error(\[\w+\])?: [^\n]+\n[^\n]*\n[^\n]*)", out)
             res.status, res.reason = "undecided", "native companion does not compile against this tree (public API changed?): %s" % (m.group(1) if m else out[-300:])
             return res
